@@ -1318,10 +1318,10 @@ class ParameterGrid(object):
         self.name = name
         self._decimals = decimals
         self._delta = np.around(self._delta, self._decimals)
-        if not (self._delta != 0):
+        if not (self._delta > 0):
             raise ValueError(
-                'The delta value is zero (or nan) after rounding it to '
-                f'{self._decimals} decimals!')
+                'The delta value must be positive after rounding it to '
+                f'{self._decimals} decimals! Its value is {self._delta}.')
         self.lower_bound = grid[0]
 
         # Setting the grid, will automatically round the grid values to their
